@@ -297,6 +297,11 @@ func runC01(c *core.Ctx) {
 
 	c.Rule("C01.pairedwrite", "basicnode.plainMap: every function that stores a value into an entry of the ordered table (plainMap__Entry.v) also updates the lookup index (plainMap.m) with a key loaded from that same entry, on every path to a return; and every update of the index is in such a function", 1)
 	var tblWriters, idxWriters []*ssa.Function
+	mr := findBasicMapRoles(p)
+	if mr == nil {
+		c.Undecided("node/basicnode.plainMap#shape", "-", "basicnode's map storage no longer has the shape one map-typed index + one slice of (string key, Node value) entries")
+		mr = &basicMapRoles{}
+	}
 	for _, fn := range p.ModFns {
 		pk := core.FuncPkg(fn)
 		if pk == nil || core.RelPkg(pk.Path()) != "node/basicnode" {
@@ -306,10 +311,10 @@ func runC01(c *core.Ctx) {
 			if w.Class == core.RootFresh {
 				continue
 			}
-			if w.Struct != nil && w.Struct.Obj().Name() == "plainMap__Entry" && w.Field == "v" {
+			if w.Struct != nil && mr.Entry != nil && w.Struct.Obj() == mr.Entry.Obj() && w.Field == mr.EntryVF {
 				tblWriters = append(tblWriters, fn)
 			}
-			if w.Kind == "mapupdate" && w.Struct != nil && w.Struct.Obj().Name() == "plainMap" && w.Field == "m" {
+			if w.Kind == "mapupdate" && w.Struct != nil && mr.Map != nil && w.Struct.Obj() == mr.Map.Obj() && w.Field == mr.IndexF {
 				idxWriters = append(idxWriters, fn)
 			}
 		}
@@ -339,7 +344,7 @@ func runC01(c *core.Ctx) {
 		core.Instrs(fn, func(in ssa.Instruction) {
 			switch x := in.(type) {
 			case *ssa.Store:
-				if fa, ok := x.Addr.(*ssa.FieldAddr); ok && core.FieldName(fa) == "plainMap__Entry.v" {
+				if fa, ok := x.Addr.(*ssa.FieldAddr); ok && core.FieldName(fa) == mr.EntryV {
 					tstore = x
 				}
 			case *ssa.MapUpdate:
@@ -353,7 +358,7 @@ func runC01(c *core.Ctx) {
 			good = !reached && upd.Value == tstore.Val
 			keyFromEntry := false
 			for w := range core.BackSlice(upd.Key, core.SliceOpts{}) {
-				if fa, ok := w.(*ssa.FieldAddr); ok && core.FieldName(fa) == "plainMap__Entry.k" {
+				if fa, ok := w.(*ssa.FieldAddr); ok && core.FieldName(fa) == mr.EntryK {
 					keyFromEntry = true
 				}
 			}
@@ -411,7 +416,7 @@ func runC01(c *core.Ctx) {
 		for _, ci := range core.Calls(fn) {
 			if isWB(ci) {
 				for w := range core.BackSlice(ci.Common().Args[len(ci.Common().Args)-1], core.SliceOpts{}) {
-					if fa, ok := w.(*ssa.FieldAddr); ok && strings.HasSuffix(core.FieldName(fa), ".w") {
+					if fa, ok := w.(*ssa.FieldAddr); ok && isPtrToNodeField(p, fa) {
 						argOK = true
 					}
 				}
@@ -424,7 +429,7 @@ func runC01(c *core.Ctx) {
 	for _, spec := range []struct {
 		typ, method string
 		fields      []string
-	}{{"plainMap__Assembler", "BeginMap", []string{"plainMap.t", "plainMap.m"}}, {"plainList__Assembler", "BeginList", []string{"plainList.x"}}} {
+	}{{"plainMap__Assembler", "BeginMap", []string{mr.Table, mr.Index}}, {"plainList__Assembler", "BeginList", []string{findBasicListStorage(p)}}} {
 		t := p.NamedType("node/basicnode", spec.typ)
 		if t == nil {
 			c.Undecided("node/basicnode."+spec.typ, "-", "type not found")
@@ -436,6 +441,10 @@ func runC01(c *core.Ctx) {
 			continue
 		}
 		for _, f := range spec.fields {
+			if f == "" {
+				c.Undecided("node/basicnode."+spec.typ+"."+spec.method+"#storage-field", "-", "storage field of the node under construction not identified by shape")
+				continue
+			}
 			isFreshStore := func(in ssa.Instruction) bool {
 				st, ok := in.(*ssa.Store)
 				if !ok {
